@@ -8,8 +8,8 @@ use super::inline::parse_divert_line;
 use super::{
     Line, ParsedStatement,
     inline::{
-        parse_condition, parse_divert, split_inline_choice_divert, split_inline_divert,
-        split_text_and_tags,
+        find_outside_braces, parse_condition, parse_divert, split_inline_choice_divert,
+        split_inline_divert, split_text_and_tags,
     },
 };
 
@@ -358,7 +358,7 @@ pub fn parse_choice_text(input: &str) -> Result<ParsedChoiceText, CompilerError>
     }
 
     if let Some(choice_only) = input.strip_prefix('[') {
-        let end = choice_only.find(']').ok_or_else(|| {
+        let end = find_outside_braces(choice_only, "]").ok_or_else(|| {
             CompilerError::invalid_source("choice label is missing closing ']'".to_owned())
         })?;
         let label = choice_only[..end].trim().to_owned();
@@ -407,7 +407,8 @@ pub fn parse_choice_text(input: &str) -> Result<ParsedChoiceText, CompilerError>
         });
     }
 
-    if let Some((before, after)) = trimmed.split_once("[]") {
+    if let Some(index) = find_outside_braces(trimmed, "[]") {
+        let (before, after) = (&trimmed[..index], &trimmed[index + 2..]);
         let display = before.trim_end().to_owned();
         let raw_suffix = after.trim_start();
         let had_space_before_inline_divert = split_inline_divert(raw_suffix)
@@ -444,8 +445,8 @@ pub fn parse_choice_text(input: &str) -> Result<ParsedChoiceText, CompilerError>
         });
     }
 
-    if let Some(open) = trimmed.find('[')
-        && let Some(close_rel) = trimmed[open + 1..].find(']')
+    if let Some(open) = find_outside_braces(trimmed, "[")
+        && let Some(close_rel) = find_outside_braces(&trimmed[open + 1..], "]")
     {
         let close = open + 1 + close_rel;
         let start = &trimmed[..open];
